@@ -14,17 +14,37 @@ pub struct Secret { pub kind: String, pub value: Integer }
 /// public base pairs (g, h) the recipient knows, with the modulus they live in
 pub struct BasePair { pub name: String, pub g: Integer, pub h: Integer, pub n: Integer }
 
-fn base_pairs(key: &KeyMat, n: usize, trusted: bool) -> Vec<BasePair> {
+fn base_pairs(key: &KeyMat, n: usize, tp: Option<&zkryptium::cl03::keys::CL03CommitmentPublicKey>) -> Vec<BasePair> {
     let mut v = Vec::new();
     for i in 0..n { v.push(BasePair { name: "(a_i,b)".into(), g: key.bases.0[i].clone(), h: key.pk.b.clone(), n: key.pk.N.clone() }); }
     for i in 0..n { v.push(BasePair { name: "(g_i,h)".into(), g: key.cpk.g_bases[i].clone(), h: key.cpk.h.clone(), n: key.cpk.N.clone() }); }
-    if trusted { for i in 0..n { v.push(BasePair { name: "(g_i,h)tp".into(), g: key.tp_cpk.g_bases[i].clone(), h: key.tp_cpk.h.clone(), n: key.tp_cpk.N.clone() }); } }
+    if let Some(tp) = tp { for i in 0..n { v.push(BasePair { name: "(g_i,h)tp".into(), g: tp.g_bases[i].clone(), h: tp.h.clone(), n: tp.N.clone() }); } }
     v
 }
 
 /// C17 on one frame
-pub fn check_openings(cx: &mut Cx, frame: &str, v: &Value, secrets: &[Secret], pairs: &[BasePair], decoy: &Integer) {
+pub fn check_openings(cx: &mut Cx, frame: &str, v: &Value, secrets: &[Secret], pairs: &[BasePair], decoy: &Integer, extra_challenges: &[(String, Integer)]) {
     let objs = commitment_objects(v);
+    // dictionary attack without any randomness: an integer of the frame that is a multiple (over
+    // the integers) of g^m mod N for the committed m and not for the decoy identifies m
+    {
+        let ls = leaves(v);
+        let floor = Integer::from(1) << 64u32;
+        for bp in pairs {
+            for s in secrets.iter().filter(|s| s.kind == "hidden-attribute" && s.value >= 0) {
+                let a_true = pow(&bp.g, &s.value, &bp.n);
+                let a_decoy = pow(&bp.g, decoy, &bp.n);
+                if a_true <= floor { continue; }
+                for (path, x) in &ls {
+                    if *x <= a_true { continue; }
+                    cx.count("n.divisibility_tests");
+                    if x.is_divisible(&a_true) && !x.is_divisible(&a_decoy) {
+                        cx.violation("C17", format!("{frame}/{}/dictionary-by-divisibility/{}/{}", generic_path(path), s.kind, bp.name), format!("{path} is an integer multiple of g^m mod N for the committed attribute (and not for the decoy) under {}: two candidates are told apart without any randomness", bp.name));
+                    }
+                }
+            }
+        }
+    }
     cx.add("n.commitment_objects_scanned", objs.len() as u64);
     for (path, value, randomness) in &objs {
         let gp = generic_path(path);
@@ -90,7 +110,8 @@ pub fn check_openings(cx: &mut Cx, frame: &str, v: &Value, secrets: &[Secret], p
     }
     // secrets recoverable by one exact division of a leaf by a challenge or by 1 + challenge
     let ls = leaves(v);
-    let chals: Vec<(String, Integer)> = ls.iter().filter(|(p, _)| { let l = p.rsplit('.').next().unwrap_or(""); l == "challenge" || l == "C" }).map(|(p, x)| (generic_path(p), x.clone())).collect();
+    let mut chals: Vec<(String, Integer)> = ls.iter().filter(|(p, _)| { let l = p.rsplit('.').next().unwrap_or(""); l == "challenge" || l == "C" }).map(|(p, x)| (generic_path(p), x.clone())).collect();
+    chals.extend(extra_challenges.iter().cloned());
     for (path, x) in &ls {
         for (cp, c) in &chals {
             for (dn, d) in [("c", c.clone()), ("1+c", Integer::from(c + 1u32))] {
@@ -141,6 +162,13 @@ pub fn check_masking(cx: &mut Cx, frame: &str, v: &Value, secrets: &[Secret], ex
                 if Integer::from(&q - &x.value).abs() < bound {
                     cx.violation("C19", format!("{frame}/{rp}/div/{cp}/{}", x.kind), format!("floor({rp} / {cp}) is within 2^64 of the sender's {} (difference {})", x.kind, Integer::from(&q - &x.value)));
                 }
+                // the blinding term itself, recomputed by the omniscient checker: never zero and
+                // never the secret it is meant to mask
+                if x.value.significant_bits() > 64 && same_subproof(rp, cp) {
+                    let blinder = Integer::from(*s - Integer::from(c * &x.value));
+                    if blinder == 0 { cx.violation("C19", format!("{frame}/{rp}/blinder-is-zero/{cp}/{}", x.kind), format!("{rp} = {cp} * {} exactly: no blinding term at all", x.kind)); }
+                    if blinder == x.value { cx.violation("C19", format!("{frame}/{rp}/blinder-is-the-secret/{cp}/{}", x.kind), format!("{rp} = (1 + {cp}) * {}: the blinding term is the secret itself", x.kind)); }
+                }
             }
         }
         for (rp2, s2) in &responses {
@@ -172,18 +200,27 @@ pub fn run(cx: &mut Cx, which: Which) {
     let issuer = cx.node("issuer");
     let key = pool_key(cx.ch.forced("pool_key", POOL_SIZE, cx.run_index));
     let (n, hidden) = crate::scen_blind::combo(cx.ch.forced("combo", 57, cx.run_index.wrapping_mul(23)));
-    let trusted = cx.ch.chance("trusted_party", 1, 3);
     let seed = cx.run_seed;
+    // the hidden positions are a set: also listed descending / rotated / shuffled
+    let (order_h, hidden) = reorder(&mut cx.ch, "hidden_list_order", &hidden);
+    if order_h != "as-given" { cx.count("probe.hidden_positions_listed_in_non_ascending_order"); }
+    // trusted party: none / the pool's key (library-generated) / a key over a modulus of another size
+    let tp: Option<zkryptium::cl03::keys::CL03CommitmentPublicKey> = match cx.ch.weighted("trusted_party", &[4, 2, 1]) {
+        0 => None,
+        1 => Some(key.tp_cpk.clone()),
+        _ => { let bits = [200u32, 300, 520, 1500][cx.ch.choose("tp_modulus_bits", 4) as usize]; cx.count("probe.trusted_party_modulus_of_another_size"); Some(odd_size_tp_key(seed, bits, MAX_ATTR)) }
+    };
+    let trusted = tp.is_some();
     // mostly full 256-bit attributes; some short ones (0, 42, a timestamp): the response / challenge
     // clause is meaningful for them too, the response / response clause is applied to long secrets
     // only (DESIGN.md Appendix A.18)
     let msgs: Vec<Integer> = (0..n).map(|i| match cx.ch.weighted("attr_size", &[5, 1, 1, 1]) { 0 => gen_attr(seed, i as u64, 0).value, 1 => Integer::from(0), 2 => Integer::from(42), _ => Integer::from(1_790_000_000u64 + i as u64) }).collect();
     let decoy = gen_attr(seed, 9999, 0).value;
-    cx.log(format!("session: key#{} n={n} hidden={hidden:?} trusted={trusted}", key.idx));
-    cx.cell(format!("shape|n{n}|U{}|trusted{}", hidden.len(), trusted as u8));
-    let (k1, m1, h1) = (key.clone(), msgs.clone(), hidden.clone());
+    cx.log(format!("session: key#{} n={n} hidden={hidden:?} ({order_h}) trusted-party modulus={:?} bits", key.idx, tp.as_ref().map(|t| t.N.significant_bits())));
+    cx.cell(format!("shape|n{n}|U{}|trusted{}|{order_h}", hidden.len(), tp.as_ref().map(|t| t.N.significant_bits()).unwrap_or(0)));
+    let (k1, m1, h1, tp1) = (key.clone(), msgs.clone(), hidden.clone(), tp.clone());
     let (key2, msgs2, hidden2, decoy2) = (key.clone(), msgs.clone(), hidden.clone(), decoy.clone());
-    cx.step(holder, "commit+prove", StepOpts::default(), move || holder_commit_and_prove(&k1, &m1, &h1, trusted), move |cx, st| {
+    cx.step(holder, "commit+prove", StepOpts::default(), move || holder_commit_and_prove_with(&k1, &m1, &h1, tp1.as_ref()), move |cx, st| {
         let Ok(hc) = st.out else { cx.log("issuance proof failed (C14's business)".into()); return; };
         let v = parse(&hc.zk_json);
         cx.eval(&[b"zkpok", hc.zk_json.as_bytes()], true);
@@ -192,15 +229,11 @@ pub fn run(cx: &mut Cx, which: Which) {
         if let Some(r) = &hc.ct_randomness { secrets.push(Secret { kind: "trusted-commitment-randomness".into(), value: r.clone() }); }
         // the randomness of every commitment embedded by the prover is a secret opening too
         for (p, _val, rnd) in commitment_objects(&v) { secrets.push(Secret { kind: format!("opening-randomness-of:{}", generic_path(&p)), value: rnd }); }
-        let pairs = base_pairs(&key2, n, trusted);
-        match which {
-            Which::Openings => {
-                let s: Vec<Secret> = secrets.into_iter().filter(|s| !s.kind.starts_with("opening-randomness-of:")).collect();
-                check_openings(cx, "ZKPoK", &v, &s, &pairs, &decoy2);
-            }
-            Which::Masking => {
-                // recomputed challenges of the per-attribute and r proofs
-                let mut extra = Vec::new();
+        let pairs = base_pairs(&key2, n, tp.as_ref());
+        // recomputed challenges of the per-attribute and r proofs
+        let mut extra = Vec::new();
+        {
+            {
                 if let Some(arr) = v["CL03"]["proofs_commited_mi"].as_array() {
                     for (k, pv) in arr.iter().enumerate() {
                         let i = hidden2[k];
@@ -214,14 +247,20 @@ pub fn run(cx: &mut Cx, which: Which) {
                     s = s + &key2.pk.b.to_string() + &hc.c_value.to_string() + &t.to_string();
                     extra.push(("recomputed:proof_commited_msgs".to_string(), sha256_int(&s)));
                 }
-                check_masking(cx, "ZKPoK", &v, &secrets, &extra);
             }
+        }
+        match which {
+            Which::Openings => {
+                let s: Vec<Secret> = secrets.into_iter().filter(|s| !s.kind.starts_with("opening-randomness-of:")).collect();
+                check_openings(cx, "ZKPoK", &v, &s, &pairs, &decoy2, &extra);
+            }
+            Which::Masking => check_masking(cx, "ZKPoK", &v, &secrets, &extra),
         }
     });
     // presentation
     let (k3, m3) = (key.clone(), msgs.clone());
     let (key4, msgs4) = (key.clone(), msgs.clone());
-    let hidden_p: Vec<usize> = if cx.ch.chance("present_all_hidden", 1, 4) { (0..n).collect() } else { hidden.clone() };
+    let hidden_p: Vec<usize> = if cx.ch.chance("present_all_hidden", 1, 4) { reorder(&mut cx.ch, "hidden_list_order", &(0..n).collect::<Vec<_>>()).1 } else { hidden.clone() };
     cx.step(issuer, "sign", StepOpts::default(), move || issue_plain(&k3, &m3), move |cx, st| {
         let Ok(sig) = st.out else { return };
         let (k5, m5, h5, sig5) = (key4.clone(), msgs4.clone(), hidden_p.clone(), sig.clone());
@@ -235,23 +274,21 @@ pub fn run(cx: &mut Cx, which: Which) {
             secrets.push(Secret { kind: "signature-s".into(), value: sig.1.clone() });
             let w = int_of(&v["CL03"]["spok"]["Cv"]["randomness"]);
             for (p, _val, rnd) in commitment_objects(&v) { secrets.push(Secret { kind: format!("opening-randomness-of:{}", generic_path(&p)), value: rnd }); }
-            let pairs = base_pairs(&key4, n, false);
+            let pairs = base_pairs(&key4, n, None);
+            let mut extra = Vec::new();
+            if let Some(arr) = v["CL03"]["proofs_commited_mi"].as_array() {
+                for (k, pv) in arr.iter().enumerate() {
+                    let Some(&i) = hidden_p.get(k) else { break };
+                    if let (Some(t), Some(cv)) = (int_of(&pv["value"]["t"]), int_of(&pv["commitment"]["value"])) { extra.push(("recomputed:proofs_commited_mi[*]".to_string(), nisp_secrets_challenge(&key4.cpk.g_bases[i], &key4.cpk.h, &cv, &t))); }
+                }
+            }
             match which {
                 Which::Openings => {
                     let mut s: Vec<Secret> = secrets.into_iter().filter(|s| !s.kind.starts_with("opening-randomness-of:")).collect();
                     if let Some(w) = w { s.push(Secret { kind: "blinding-w-of-v".into(), value: w }); }
-                    check_openings(cx, "PoKSignature", &v, &s, &pairs, &decoy);
+                    check_openings(cx, "PoKSignature", &v, &s, &pairs, &decoy, &extra);
                 }
-                Which::Masking => {
-                    let mut extra = Vec::new();
-                    if let Some(arr) = v["CL03"]["proofs_commited_mi"].as_array() {
-                        for (k, pv) in arr.iter().enumerate() {
-                            let i = hidden_p[k];
-                            if let (Some(t), Some(cv)) = (int_of(&pv["value"]["t"]), int_of(&pv["commitment"]["value"])) { extra.push(("recomputed:proofs_commited_mi[*]".to_string(), nisp_secrets_challenge(&key4.cpk.g_bases[i], &key4.cpk.h, &cv, &t))); }
-                        }
-                    }
-                    check_masking(cx, "PoKSignature", &v, &secrets, &extra);
-                }
+                Which::Masking => check_masking(cx, "PoKSignature", &v, &secrets, &extra),
             }
         });
     });
@@ -281,7 +318,7 @@ pub fn run(cx: &mut Cx, which: Which) {
                     // base pairs of the wide key: only the hidden positions matter
                     let pairs: Vec<BasePair> = hidden_w.iter().map(|&i| BasePair { name: "(g_i,h)".into(), g: key7.cpk_wide.g_bases[i].clone(), h: key7.cpk_wide.h.clone(), n: key7.cpk_wide.N.clone() }).chain(std::iter::once(BasePair { name: "(g_i,h)".into(), g: key7.cpk_wide.g_bases[0].clone(), h: key7.cpk_wide.h.clone(), n: key7.cpk_wide.N.clone() })).collect();
                     if let Some(w) = int_of(&v["CL03"]["spok"]["Cv"]["randomness"]) { secrets.push(Secret { kind: "blinding-w-of-v".into(), value: w }); }
-                    check_openings(cx, "PoKSignature", &v, &secrets, &pairs, &decoy7);
+                    check_openings(cx, "PoKSignature", &v, &secrets, &pairs, &decoy7, &[]);
                 }
                 Which::Masking => {
                     for (p, _val, rnd) in commitment_objects(&v) { secrets.push(Secret { kind: format!("opening-randomness-of:{}", generic_path(&p)), value: rnd }); }
